@@ -52,6 +52,59 @@ def make_table(path, sqltype, values, colname='c'):
     con.close()
 
 
+def check_column_names(b, top):
+    """C08 over legal column names that need quoting (spaces, reserved words, leading digits, punctuation),
+    rex off / on: discover, verify against the same table (no failure, no error), then one violating row."""
+    from tdda.constraints.db.drivers import database_connection
+    from tdda.constraints.db.constraints import discover_db_table, verify_db_table
+    path = os.path.join(top, 'names.sqlite3')
+    for colname in ('product code', 'order', '2nd', 'part-no', 'Group', 'naïve', 'c'):
+        for sqltype, values, bad in (('text', ['ab-1', 'cd-2', None, 'ef-3'], '!!!!!!!!!!'), ('integer', [3, 1, 2], 99)):
+            for inc_rex in ((False, True) if sqltype == 'text' else (False,)):
+                make_table(path, sqltype, values, colname=colname)
+                w = {'column name': colname, 'sqltype': sqltype, 'values': [repr(v) for v in values], 'inc_rex': inc_rex}
+                b.case(('colname', colname, sqltype, inc_rex))
+                db = database_connection(dbtype='sqlite', db=path)
+                try:
+                    with quiet():
+                        ok, cs = b.guarded('C08.discover_db_table.noraise',
+                                           lambda: discover_db_table('sqlite', db, 't', inc_rex=inc_rex), w)
+                    if not ok or cs is None:
+                        continue
+                    d = cs.to_dict()
+                    b.check('C08.discovers-the-named-column', colname in d['fields'], w, 'fields: %r' % list(d['fields']))
+                    tddap = os.path.join(top, 'names.tdda')
+                    with open(tddap, 'w', encoding='utf-8') as fh:
+                        fh.write(cs.to_json())
+                    with quiet():
+                        ok, v = b.guarded('C08.verify_db_table.noraise', lambda: verify_db_table('sqlite', db, 't', tddap), w)
+                    if ok:
+                        b.check('C08.closure', v.failures == 0, w, '%d failures: %r' % (v.failures, dict(v.fields.get(colname, {}))))
+                finally:
+                    try:
+                        db.close()
+                    except Exception:
+                        pass
+                # one row beyond every discovered bound
+                con = sqlite3.connect(path)
+                con.execute('INSERT INTO t VALUES (?, ?)', (100, bad))
+                con.commit()
+                con.close()
+                db = database_connection(dbtype='sqlite', db=path)
+                try:
+                    with quiet():
+                        ok, v2 = b.guarded('C08.verify_db_table.perturbed.noraise',
+                                           lambda: verify_db_table('sqlite', db, 't', tddap), w)
+                    if ok:
+                        b.check('C08.sensitivity.any', v2.failures > 0, dict(w, added=repr(bad)),
+                                'a row beyond the discovered bounds was added and nothing failed')
+                finally:
+                    try:
+                        db.close()
+                    except Exception:
+                        pass
+
+
 def beyond(kind, value, ttype, col):
     """A single extra row value that breaks the discovered constraint `kind`."""
     if kind == 'min':
@@ -216,6 +269,7 @@ def run(props, tier, seed):
             for values in seqs:
                 for inc_rex in ((False, True) if TTYPE[sqltype] == 'string' else (False,)):
                     check_table(b, top, sqltype, values, inc_rex)
+        check_column_names(b, top)
     finally:
         shutil.rmtree(top, ignore_errors=True)
     return b
